@@ -6,7 +6,7 @@
               OBJECT, created by setdefault), `_samples_cache.pop` of remove_samples, the value read by save_sample
      IDriver  the driver call itself (query / remove / insert on the stored records)
      IFinish  type adaptation, `results`, cache writes, the response.
-   The port's cache dict is an object: remove_samples pops it, and an in-flight query that still holds the popped dict
+   The port's cache dict is an object: remove_samples pops it (before the removal and again after it), and an in-flight query that still holds the popped dict
    writes into an orphan nobody reads.  The model keeps a generation number per port (incremented by pop) and drops the
    writes of a query whose generation is stale — observationally the same thing. *)
 From QT Require Export C18.Model.
@@ -169,7 +169,10 @@ Definition ifinish (cfg : config) (s : istate) (id : Z) : istate * response :=
           i_gens := i_gens s; i_fly := fly_drop (i_fly s) id |}, REntries out)
   | Some (FSlice p k from to limit (Some a)) =>
       (with_fly s (fly_drop (i_fly s) id), RSamples (map (fun x => (fst x, adapt k (snd x))) a))
-  | Some (FDelete p from to true) => (with_fly s (fly_drop (i_fly s) id), RDone)
+  | Some (FDelete p from to true) =>
+      (* back from the driver: the port's dict is popped a second time (6506e34) *)
+      ({| i_st := {| st_store := st_store st; st_cache := cache_pop (st_cache st) p; st_now := st_now st |};
+          i_gens := gen_bump (i_gens s) p; i_fly := fly_drop (i_fly s) id |}, RDone)
   | Some (FSave p now v true) => (with_fly s (fly_drop (i_fly s) id), RNone)
   | _ => (s, ROther)
   end.
@@ -184,7 +187,7 @@ Definition istep (cfg : config) (s : istate) (e : ievent) : istate * response :=
   match e with
   | ISeq r =>
       let '(st', o) := step cfg (i_st s) r in
-      ({| i_st := st'; i_gens := match pops_cache cfg r with Some p => gen_bump (i_gens s) p | None => i_gens s end;
+      ({| i_st := st'; i_gens := match pops_cache cfg r with Some p => gen_bump (gen_bump (i_gens s) p) p | None => i_gens s end;
           i_fly := i_fly s |}, o)
   | IStart id r => istart cfg s id r
   | IDriver id => idriver s id
@@ -200,22 +203,12 @@ Fixpoint irun (cfg : config) (s : istate) (es : list ievent) : istate * list res
 Definition istate_of (st : state) : istate := {| i_st := st; i_gens := []; i_fly := [] |}.
 
 (* executable form of the premise of the interleaving theorem (InterleaveThm.sched_ok): the clock is not advanced while a
-   request is suspended; when the removal of a DELETE runs, the port has no cache entry and no suspended query holds the
-   port's live dict.  Evaluated by the harness on every schedule it runs. *)
-Definition port_cleanb (s : istate) (p : Z) : bool :=
-  forallb (fun e => negb (fst (fst e) =? p)) (st_cache (i_st s))
-  && forallb (fun e => match snd e with
-                       | FByTs p' _ _ _ _ _ g _ => negb ((p' =? p) && (g =? gen_of (i_gens s) p))
-                       | _ => true
-                       end) (i_fly s).
-
+   request is suspended, and a request starts under an identifier that is not in flight.  Evaluated by the harness on
+   every schedule it runs. *)
 Definition event_okb (s : istate) (e : ievent) : bool :=
   match e with
   | ISeq (AdvanceClock _) | IStart _ (AdvanceClock _) => match i_fly s with [] => true | _ => false end
-  | IDriver id => match fly_get (i_fly s) id with
-                  | Some (FDelete p _ _ false) => port_cleanb s p
-                  | _ => true
-                  end
+  | IStart id _ => match fly_get (i_fly s) id with None => true | Some _ => false end
   | _ => true
   end.
 
@@ -224,4 +217,3 @@ Fixpoint sched_okb (cfg : config) (s : istate) (es : list ievent) : bool :=
   | [] => true
   | e :: rest => event_okb s e && sched_okb cfg (fst (istep cfg s e)) rest
   end.
-
